@@ -214,7 +214,45 @@ pub fn html_job(job: &J) -> J {
         let b = h.serialize_write(p2, root, &mut buf).map(|_| String::from_utf8_lossy(&buf).to_string());
         (a, b)
     }));
+    // the *_with_normalizer pair under NormF (crate::ser::ClassNormalizer)
+    let rn = catch_unwind(AssertUnwindSafe(|| {
+        let h = w.xot.html5();
+        let p = Parameters { indentation: if indent { Some(Indentation { suppress: suppress.clone() }) } else { None }, cdata_section_elements: cdata.clone() };
+        let a = h.serialize_string_with_normalizer(p, root, crate::ser::ClassNormalizer);
+        let mut sink = crate::ser::ShortWriter { buf: vec![], step: 0 };
+        let p2 = Parameters { indentation: if indent { Some(Indentation { suppress: suppress.clone() }) } else { None }, cdata_section_elements: cdata.clone() };
+        let b = h.serialize_write_with_normalizer(p2, root, &mut sink, crate::ser::ClassNormalizer).map(|_| String::from_utf8_lossy(&sink.buf).to_string());
+        (a, b)
+    }));
     let m = ev.as_object_mut().unwrap();
+    match rn {
+        Err(_) => {
+            m.insert("nres".into(), json!("panic"));
+            m.insert("nwsame".into(), json!(true));
+            m.insert("ntext".into(), json!([]));
+            m.insert("ntoks".into(), json!([]));
+        }
+        Ok((a, b)) => {
+            let same = match (&a, &b) {
+                (Ok(x), Ok(y)) => x == y,
+                (Err(_), Err(_)) => true,
+                _ => false,
+            };
+            m.insert("nwsame".into(), json!(same));
+            match a {
+                Err(_) => {
+                    m.insert("nres".into(), json!("err"));
+                    m.insert("ntext".into(), json!([]));
+                    m.insert("ntoks".into(), json!([]));
+                }
+                Ok(s) => {
+                    m.insert("nres".into(), json!("ok"));
+                    m.insert("ntext".into(), json!(cps(&s)));
+                    m.insert("ntoks".into(), J::Array(tokenize(&s)));
+                }
+            }
+        }
+    }
     m.insert("op".into(), json!("html"));
     // ASCII-lowercased local names per node (TLA+ strings are atomic)
     let lc: Vec<String> = job["st"]["n"].as_array().map(|a| a.iter().map(|n| n["ln"].as_str().unwrap_or("").to_ascii_lowercase()).collect()).unwrap_or_default();
